@@ -77,6 +77,7 @@ COMPONENTS = {
 
 
 NO_EVIDENCE = False
+STOP_FIRST = False      # sensitivity tooling only: stop the batch at the first violation
 
 
 def load_known():
@@ -176,6 +177,11 @@ def run_batch(prop, tier, master, n_ff, n_f, workers, deadline, strata=()):
                     total["notes"] += a["notes"][:1]
                     if len(total["samples"]) < 3:
                         total["samples"] += a["samples"][:1]
+                    if STOP_FIRST and total["viol"]:
+                        for f2 in futs:
+                            f2.cancel()
+                        total["stopped_early"] = True
+                        break
             except Exception:
                 total["errors"].append({"tb": "batch deadline reached: " + traceback.format_exc()})
                 for fu in futs:
@@ -294,7 +300,7 @@ def check_property(prop, tier, master, n_ff, n_f, workers, strat_scale=1.0):
         if nviol == 0:
             return 2
     planned = n_ff + n_f + sum(min(n, sp) for _, sp, n in strata)
-    if tot["runs"] < 0.5 * planned and nviol == 0:
+    if tot["runs"] < 0.5 * planned and nviol == 0 and not tot.get("stopped_early"):
         print("HARNESS-ERROR: only %d of %d runs completed" % (tot["runs"], planned),
               file=sys.stderr)
         return 2
@@ -439,9 +445,13 @@ def main():
     ap.add_argument("--n", type=int, default=16)
     ap.add_argument("--no-evidence", action="store_true",
                     help="do not rewrite evidence/<id>.json (used by tools/mutants.py)")
+    ap.add_argument("--first", action="store_true",
+                    help="stop at the first violation (used by tools/seeded.py and tools/mutants.py; "
+                         "implies --no-evidence)")
     a = ap.parse_args()
-    global NO_EVIDENCE
-    NO_EVIDENCE = a.no_evidence
+    global NO_EVIDENCE, STOP_FIRST
+    NO_EVIDENCE = a.no_evidence or a.first
+    STOP_FIRST = a.first
     if a.setup:
         pf = A.load()
         import numpy
